@@ -27,7 +27,8 @@ ASSUMPTIONS = [
     "a method that names its own function follows ordinary Python scoping when inherited (statement, last sentence)",
 ]
 REPORT_COUNTERS = ["graphs", "node_calls", "trees_compared", "graphs_depth2_inherited_walker",
-                   "override_under_inherited_walker", "selfname_walkers", "recurse_sites_run", "late_modifications_applied", "trees_compared_after_late_change"]
+                   "override_under_inherited_walker", "selfname_walkers", "recurse_sites_run", "late_modifications_applied", "trees_compared_after_late_change",
+                   "registrations_made_during_a_call"]
 
 INPUTS = [
     ["v", 1], ["v", "s"],
@@ -101,11 +102,17 @@ def gen_case(rng, params, idx):
 
 
 def _gen_method(rng, mid):
-    kind = rng.choice(["walk_list", "map_list", "deep_list", "nest_list", "walk_tuple", "leaf", "leaf", "leaf", "wrap", "self_list"])
-    t = {"walk_list": "list", "map_list": "list", "deep_list": "list", "nest_list": "list", "self_list": "list", "walk_tuple": "tuple", "wrap": "dict"}.get(kind)
+    kind = rng.choice(["walk_list", "map_list", "deep_list", "nest_list", "walk_tuple", "leaf", "leaf", "leaf", "wrap", "self_list",
+                       "ondemand"])
+    t = {"walk_list": "list", "map_list": "list", "deep_list": "list", "nest_list": "list", "self_list": "list", "walk_tuple": "tuple",
+         "wrap": "dict", "ondemand": "list"}.get(kind)
     if t is None:
         t = rng.choice(["int", "str", "float", "bytes", "bool", "object", "object"])
-    return {"mid": mid, "t": t, "kind": kind, "prio": 0}
+    ms = {"mid": mid, "t": t, "kind": kind, "prio": 0}
+    if kind == "ondemand":
+        # the method it registers on the function being called, the first time it runs
+        ms["extra"] = {"mid": mid + 5000, "t": rng.choice(["int", "str", "float", "bytes", "bool"]), "kind": "leaf", "prio": 0}
+    return ms
 
 
 def check_case(spec, res):
@@ -121,7 +128,7 @@ def check_case(spec, res):
     # structure facts for the evidence
     def depth(n):
         return 0 if not n.parents else 1 + max(depth(p) for p in n.parents)
-    walkers = {"walk_list", "map_list", "deep_list", "nest_list", "walk_tuple", "wrap", "self_list"}
+    walkers = {"walk_list", "map_list", "deep_list", "nest_list", "walk_tuple", "wrap", "self_list", "ondemand"}
     nontrivial = False
     for n in g.nodes:
         inh = {}
@@ -185,6 +192,7 @@ def check_case(spec, res):
                     res.violation("tree-vs-reference-after-late-change", [_diffkind(got, exp)], spec,
                                   observed={"node": i, "input": T.vname(vx), "got": repr(got)[:200]},
                                   acceptable=repr(exp)[:200])
+    res.count("registrations_made_during_a_call", g.ondemand_applied)
     g.cleanup()
 
 
